@@ -193,7 +193,10 @@ func Finite(p *model.Project) map[string]bool {
 			}
 			node := typeNode(p, n)
 			ok := true
-			if node != nil && (node.Kind == "ref" || node.Kind == "choice") {
+			if node != nil && optionalOrNullable(node) {
+				// the type's own body is nullable: null is an instance
+				ok = true
+			} else if node != nil && (node.Kind == "ref" || node.Kind == "choice") {
 				// a type that is itself a reference / choice: finite if some alternative is
 				ok = false
 				for _, r := range node.Refs {
@@ -237,6 +240,9 @@ func SelfRequired(p *model.Project) (bool, int) {
 		queue = queue[1:]
 		node := typeNode(p, it.name)
 		var groups [][]string
+		if node != nil && it.name != "@main" && optionalOrNullable(node) {
+			continue // a type whose body is nullable requires nothing
+		}
 		if node != nil && node.Kind == "ref" {
 			groups = [][]string{node.Refs}
 		} else {
